@@ -27,7 +27,7 @@ def run():
     r = findings.Run("C09")
     quick = common.tier() == "quick"
     rnd = random.Random(common.seed() + 9)
-    shipped = sorted(glob.glob("/repo/examples/jsons-solc/*.json_solc"), key=os.path.getsize)
+    shipped = sorted(glob.glob(os.environ.get("GASOL_VERIF_REPO", "/repo") + "/examples/jsons-solc/*.json_solc"), key=os.path.getsize)
     # the three smallest in quick (a shipped contract takes minutes with -greedy), ten in thorough
     shipped = shipped[:3] if quick else shipped[:10]
     optsets = [["-greedy"], ["-greedy", "-size"], ["-greedy", "-storage"], ["-greedy", "-partition", "-push0"],
